@@ -11,7 +11,7 @@ vars == <<st, k>>
 
 Ops(s) ==
   (IF Len(s.h) < T THEN {[a |-> "step", y |-> y] : y \in [Neurons -> {0, 1}]} ELSE {})
-  \cup {[a |-> "call", tinv |-> t] : t \in Tinvs \cup {0}}
+  \cup {[a |-> "call", tinv |-> t, sel |-> x] : t \in Tinvs \cup {0}, x \in {"all", "this", "other"}}
   \cup {[a |-> "clear"]}
   \cup {[a |-> "mode", b |-> b] : b \in BOOLEAN \ {s.training}}
 
@@ -29,6 +29,8 @@ SignInv == \A o \in Ops(st) : SignLaw(st, o)
 \* a call changes nothing the trainer observes; evaluation mode observes nothing
 Frame == \A o \in Ops(st) : LET mo == MApply(st, o) IN
             /\ o.a = "call" => mo.st = st
+            /\ (o.a = "call" /\ o.sel = "other") => mo.ret.t = "skipped"          \* a cell that is not listed gets nothing
+            /\ (o.a = "call" /\ o.sel = "this") => mo.ret = MApply(st, [o EXCEPT !.sel = "all"]).ret
             /\ (o.a = "step" /\ ~st.training) => mo.st = st
 
 Emit == PrintT(ToJson([s |-> st, out |-> {[op |-> o, res |-> {MApply(st, o)}] : o \in Ops(st)}]))
